@@ -9,7 +9,13 @@ ids = sorted(d for d in os.listdir(f"{ROOT}/seeded") if os.path.isdir(f"{ROOT}/s
 props = [json.loads(l)["id"] for l in open(f"{ROOT}/properties.jsonl")]
 assert not subprocess.run(["git", "-C", "/repo", "status", "--short"], stdout=subprocess.PIPE, text=True).stdout.strip(), "/repo not clean"
 res = {}
+# --resume: keep the rows of seeded/results.partial.json (written after every change) and skip those ids
+partial = f"{ROOT}/seeded/results.partial.json"
+if "--resume" in sys.argv and os.path.exists(partial):
+    res = json.load(open(partial))
 for sid in ids:
+    if sid in res:
+        continue
     meta = json.load(open(f"{ROOT}/seeded/{sid}/meta.json"))
     target = meta["breaks_property"]
     subprocess.check_call(["git", "-C", "/repo", "apply", f"{ROOT}/seeded/{sid}/patch.diff"])
@@ -31,7 +37,10 @@ for sid in ids:
     finally:
         subprocess.check_call(["git", "-C", "/repo", "checkout", "--", "."])
     print(sid, {k: v["verdict"] for k, v in res[sid]["checks"].items() if isinstance(v, dict) and v["verdict"] != "-"}, flush=True)
+    json.dump(res, open(partial, "w"), indent=1)
+res = {k: res[k] for k in ids if k in res}
 json.dump(res, open(f"{ROOT}/seeded/results.json", "w"), indent=1)
+if os.path.exists(partial): os.remove(partial)
 with open(f"{ROOT}/seeded/RESULTS.md", "w") as f:
     f.write("# Seeded changes vs. checks (quick tier)\n\nEach change compiles and passes the crate's 92 tests + doctests; `patch.diff`, demonstration and `meta.json` are in the sub-directory.\n\n")
     f.write("| seeded change | breaks | caught by (failing input) | caught by (no-failing-input-found) | first replay of the target check |\n|---|---|---|---|---|\n")
